@@ -129,7 +129,24 @@ def c07a(prog, R, rid="C07.a"):
                 if st["k"] == "assign" and st["rv"]["k"] == "agg" and st["rv"].get("adt") == "compaction::Choice" and st["rv"].get("variant") == "Move":
                     r.ok("%s|constructs Choice::Move" % prog.fns.get(f.root, f).path, "moved run by run (with_moved keeps one run per source run)",
                          nontrivial=False)
-    r.floor(10)
+    # moved runs come from a level above, i.e. they are newer than anything in the destination level: they go in FRONT of the
+    # destination's runs (read order within a level is run order; optimize_runs only re-packs a table behind runs it overlaps)
+    wm = prog.need("version::Version::with_moved")
+    ins = [c for c in wm.calls if c.sres.endswith(("Vec::splice", "Vec::insert", "Vec::extend", "Vec::append", "Extend<T>>::extend", "Vec::extend_from_slice"))
+           or (c.sres.endswith("Vec::push") and not any(o.kind == "call" and o.extra.sres.endswith("Level::from_runs") for a in c.args[1:] for o in origins(wm, a)))]
+    front = False
+    for c in ins:
+        if c.sres.endswith("Vec::splice"):
+            for o in origins(wm, c.args[1]):
+                if o.kind == "agg" and "Range" in str(o.what) and all(x.get("o") == "const" and str(x.get("v")) == "0" for x in o.extra.get("ops", [])):
+                    front = True
+        if c.sres.endswith("Vec::insert") and c.args[1].get("o") == "const" and str(c.args[1].get("v")) == "0":
+            front = True
+    r.check(front and len(ins) == 1, "version::Version::with_moved|moved runs are spliced in at the front of the destination level",
+            "with_moved does not put the moved (newer) runs in front of the destination level's runs (%s): an older table of the "
+            "destination level is consulted first and its value shadows the newer one" % [short(c.sres) for c in ins], wm.where(),
+            str([short(c.sres) for c in ins]))
+    r.floor(11)
 
 
 def c07b(prog, R):
@@ -205,7 +222,7 @@ def c07c(prog, R, rid="C07.c"):
             "the seqno range update is not min/max over the item's seqno", f.where(),
             "%s ; %s ; seqno := %s" % (assigns.get("self.meta.lowest_seqno"), assigns.get("self.meta.highest_seqno"), lets.get("seqno")))
     fk = hir_sites(h["body"], lambda n: n.get("k") == "assign" and hir_expr_str(n["l"]) == "self.meta.first_key")
-    ok = bool(fk) and all("self.meta.first_key.is_none()" in s.guard_texts() for s in fk) and \
+    ok = bool(fk) and all(s.guard_texts() == ["self.meta.first_key.is_none()"] for s in fk) and \
         all(hir_expr_str(s.node["r"]) == "std::option::Option::Some(user_key.clone())" for s in fk) and lets.get("user_key") == "item.key.user_key.clone()"
     r.check(ok, "%s|first_key set once, from the item's user key" % f.path, "first_key handling changed", f.where())
     # per-stream counters must not be decided by block-local state: whatever spill_block resets (the chunk buffer, its
